@@ -28,19 +28,27 @@ Definition record_comment (c : comment) (all : list comment) : list comment :=
   | (lastpos, _) :: _ => if lastpos <? fst c then c :: all else all
   end.
 
-(* the `while let Some((pos, Token::Comment(text))) = pos_tok` loop *)
-Fixpoint comment_loop (line : N) (d : cstate) (g : list comment) : cstate :=
+(* comments that start on the line of the token left behind trail that token: they are
+   recorded but are not lead comments (pos - column > prev_end: the comment's line starts
+   after the previous token ends) *)
+Fixpoint comment_loop (prev : option N) (line : N) (d : cstate) (g : list comment) : cstate :=
   match g with
   | [] => d
   | (pos, text) :: g' =>
-      let lead := if line + 1 <? line_of pos then [] else c_lead d in
+      let '(cline, col) := line_info lines pos in
+      let lead := if line + 1 <? cline then [] else c_lead d in
       let ended := pos + lenN text in
-      comment_loop (line_of ended)
-        {| c_all := record_comment (pos, text) (c_all d); c_lead := (pos, text) :: lead |} g'
+      let lead' := match prev with
+                   | Some e => if e <? pos - col then (pos, text) :: lead else lead
+                   | None => (pos, text) :: lead
+                   end in
+      comment_loop prev (line_of ended)
+        {| c_all := record_comment (pos, text) (c_all d); c_lead := lead' |} g'
   end.
 
-Definition p_next (d : cstate) (g : list comment) (tokpos : option N) : cstate :=
-  let d1 := comment_loop 0 d g in
+Definition p_next (d : cstate) (prev : option N) (g : list comment) (tokpos : option N) : cstate :=
+  (* lead comments of the token left behind are dropped first *)
+  let d1 := comment_loop prev 0 {| c_all := c_all d; c_lead := [] |} g in
   match c_lead d1, tokpos with
   | (cpos, ctext) :: _, Some pos =>
       let end_line := line_of (cpos + lenN ctext) in
@@ -53,15 +61,16 @@ Definition p_drain (d : cstate) : list comment * cstate :=
   (rev (c_lead d), {| c_all := c_all d; c_lead := [] |}).
 
 Definition p_line_end (d : cstate) (semi : N) (g : list comment) (next_start : option N)
-           (c : list comment) : list comment * list comment * cstate :=
+           (c : list comment) : list comment * list comment * cstate * option N :=
   let cleared := {| c_all := c_all d; c_lead := [] |} in
   match g with
-  | [] => (c, g, match next_start with Some _ => cleared | None => d end)
+  | [] => (c, g, match next_start with Some _ => cleared | None => d end, None)
   | (pos, text) :: g' =>
       if line_of semi =? line_of pos
       then (c ++ [(pos, text)], g',
-            {| c_all := record_comment (pos, text) (c_all d); c_lead := [] |})
-      else (c, g, cleared)
+            {| c_all := record_comment (pos, text) (c_all d); c_lead := [] |},
+            Some (pos + lenN text))
+      else (c, g, cleared, None)
   end.
 
 Definition policy_ops : ops N (list comment) cstate (list comment) :=
